@@ -97,7 +97,7 @@ def extract_witness(o, trace):
             continue
         name = k.split('::', 1)[1]
         # record inputs initialised field by field in witness mode (ND_AGG ...): lvalue paths like u.buffer.d[3], u.components.port
-        mp = re.match(r'^(\w+(?:\.\w+)+)(?:\[(\d+)\w*\])?$', name)
+        mp = re.match(r'^(\w+(?:\.\w+)+)(?:\[(\d+)\w*\])?$', name) or re.match(r'^(\w+)\[(\d+)\w*\]$', name)
         if mp and '$' not in name:
             iv = to_int(v)
             if iv is None:
